@@ -1214,6 +1214,10 @@ func (x *c08exec) collectOne(rd *sdk.ManualReader, reused *metricdata.ResourceMe
 	}
 	if reused == nil {
 		x.kept = append(x.kept, c08kept{rm: rm, snap: snap, label: label, n: x.nColl})
+	} else {
+		// reuse mode: the consumer owns what it was handed and overwrites all of it before it
+		// passes the same ResourceMetrics to the next collection
+		vScribble(rm)
 	}
 	return snap, t0, t1, true
 }
